@@ -144,8 +144,17 @@ def worker(case, led):
         _, name, n, seed, tier = case
         rng = np.random.default_rng([seed, n, 818, sum(map(ord, name))])
         model, terms, sectors = Dn.hamiltonian(name, n, rng)
-        H = Mpo(model, terms)
-        Hd = Dn.dense_h(model, terms)
+        # the operator handed to the optimiser is NOT the Hamiltonian stored in its model: a rescaled copy plus one more term (operators produced by
+        # arithmetic or from an explicit term list carry a model whose own terms differ)
+        extra_t = U.random_terms(model, np.random.default_rng([seed, n, 819]), 1)
+        H = Mpo(model, terms).scale(1.3)
+        Hd = 1.3 * Dn.dense_h(model, terms)
+        if extra_t and seed % 2 == 0:
+            et = extra_t[0] * 0.4
+            herm = Mpo(model, [et]).add(Mpo(model, [et]).conj_trans())
+            H = H.add(herm)
+            Hd = Hd + U.dense_terms(model, [et]) + U.dense_terms(model, [et]).conj().T
+        Hd = np.real_if_close(Hd)
         q = sectors[len(sectors) // 2]
         mask = S.sector_mask(model, q)
         lam = sector_spectrum(Hd, mask)
@@ -197,6 +206,13 @@ def check(run):
                     cases.append(("chain", f"{name}+stacked{k_}", n, method, nroots, M, s, run.tier))
         cases.append(("chain", "spinqn-flux+stacked2", 10, "2site", 1, 16, s, run.tier))
     run_cases(run, worker, cases)
+    # on-the-fly site swapping switched on (the property's quantifier includes it): the optimiser contract with the re-ordered operator as oracle - variational
+    # bound, exactness at complete bond dimension, valid labels, the operator re-ordered consistently - is the one stated in props/C17 (worker_opt); here the
+    # criteria x {complete, truncating first sweeps} on spin / spin+qn / vibronic chains
+    from props import C17 as _c17
+    ofs_cases = [("opt", fam, 4, ofs, False, regime, s, run.tier) for s in seeds for fam in ("spin", "spinqn", "vibronic") for ofs in _c17.OFS_NAMES
+                 for regime in (("full", "trunc") if run.tier != "quick" or ofs != "ofs_debug" else ("full",))]
+    run_cases(run, _c17.worker, ofs_cases)
     from props import C08_sym
     guarded(run, C08_sym.prove)
     # the sweep poses the projected eigenproblems with the environments of the current state and hands back the state of the requested site (call by contract
